@@ -10,7 +10,7 @@ non-decreasing offset pairs of all small texts (harness op `pos`).
 import json
 from collections import Counter
 
-from .. import core, layout, pyref, treework as tw
+from .. import pep695, core, layout, pyref, treework as tw
 from . import c09
 
 QUICK_VARIANTS = ["deflt", "deflt-chk"]
@@ -267,6 +267,23 @@ def run(res):
     for i, s in enumerate(ORDER):
         for nl in ("\n", "\r\n", "\r"):
             items.append(("order:%d" % i, s.replace("\n", nl), allv))
+    # every definition form x type parameters x parameter list / bases x decorator, on one line and with every part on
+    # its own line (the linear locator must visit the parts in source order whatever the field order of the node)
+    k = 0
+    for head in ("def", "async def", "class"):
+        for tp in ("", "[T]", "[T: int, *Ts, **P]", "[\n T,\n U: (int, str)\n]"):
+            for args in (("()", "(a)", "(a, b=1, *c, d, e=2, **f)", "(\n a: T,\n /,\n b: U = 1,\n)") if head != "class" else ("", "()", "(B)", "(B, metaclass=M)", "(\n B[T],\n k=1,\n *bs,\n)")):
+                for deco in ("", "@d\n", "@d1\n@d2(x,\n y)\n"):
+                    ret = " -> T" if head != "class" and k % 2 else ""
+                    body = ":\n    x: T = 1\n    return x\n" if head != "class" else ":\n    x: T\n"
+                    text = "%s%s f%s%s%s%s" % (deco, head, tp, args, ret, body)
+                    k += 1
+                    for nl in ("\n", "\r\n"):
+                        items.append(("defs:%d" % k, text.replace("\n", nl), allv))
+    for i in range(res.seed * 1000, res.seed * 1000 + (1500 if thorough else 300)):
+        built = pep695.build(i)
+        if built:
+            items.append(("pep695:%d" % i, built[0], variants))
     parts = core.pmap(_work, tw.batches(items, 20), init=tw.init_state, initargs=(bins,))
     for p in parts:
         res.merge(p)
